@@ -184,6 +184,10 @@ func (p *Pool) Exec(req *Req) Rep {
 				p.Close()
 				return Rep{Outcome: Died, Msg: ws + ": " + firstFatal(st), Stderr: st, Site: fatalSite(st)}
 			}
+			if r.Kind == "phase" {
+				phase = r.Phase
+				continue
+			}
 			if r.Kind == "hangsite" {
 				site, phase = r.Site, r.Phase
 				if p.KnownHangSite != nil && p.KnownHangSite(phase, site) {
